@@ -415,6 +415,7 @@ def work_emit(tasks):
 def emit_tasks(run: Run):
     arr_q = [("Signal", None), ("Variable", None)]
     typed_q = [("Signal", None), ("Variable", None), ("Port", "IN")]
+    sib_q = typed_q + [("LSignal", None)]
     ALL = ("whole", "iter")
     TYPED = V.TYPED_TERMS  # uses of the view's type: deduced Variable, operator with an operand of the documented type
     # (root kind, root width, max chain length, extended operations, qualifier kinds, operation filter, terminals)
@@ -423,7 +424,11 @@ def emit_tasks(run: Run):
            ("BV", 4, 3, False, arr_q, V.SUBSCRIPTS, ALL), ("ARR", 4, 4, False, arr_q, V.SUBSCRIPTS, ALL),
            # one-bit roots of every kind (K[1] vs K[0:0]) and typed uses of every view
            ("BV", 1, 2, False, V.QKINDS, None, ALL + TYPED), ("U", 1, 2, False, V.QKINDS, None, ALL + TYPED),
-           ("S", 1, 2, False, V.QKINDS, None, ALL + TYPED), ("BV", 4, 2, False, typed_q, None, TYPED)]
+           ("S", 1, 2, False, V.QKINDS, None, ALL + TYPED), ("BV", 4, 2, False, typed_q, None, TYPED),
+           # roots constructed inside the clocked body from a run-time value (multi-clock simulation, view vs whole object)
+           ("BV", 4, 2, False, V.LOCAL_Q, None, ALL),
+           # sibling views in ONE design (view, its three cast views, a second copy), both statement orders, concurrent/clocked
+           ("BV", 4, 2, False, sib_q, None, V.SIB_TERMS)]
     if run.thorough:
         fam = [("BV", 4, 2, False, V.QKINDS, None, ALL + TYPED), ("BV", 5, 2, False, V.QKINDS, None, ALL),
                ("BV", 6, 2, False, V.QKINDS, None, ALL),
@@ -432,6 +437,9 @@ def emit_tasks(run: Run):
                ("BV", 5, 3, False, arr_q, V.SUBSCRIPTS, ALL), ("ARR", 4, 4, False, arr_q, V.SUBSCRIPTS, ALL)]
         for kind in ("BV", "U", "S"):
             fam += [(kind, 1, 2, True, V.QKINDS, None, ALL + TYPED), (kind, 2, 2, False, V.QKINDS, None, ALL + TYPED)]
+            fam += [(kind, 4, 2, False, V.LOCAL_Q, None, ALL), (kind, 4, 2, False, sib_q, None, V.SIB_TERMS)]
+        fam += [("BV", 5, 2, False, V.LOCAL_Q, None, ALL), ("BV", 5, 2, False, sib_q, None, V.SIB_TERMS),
+                ("BV", 4, 3, False, V.LOCAL_Q + [("Signal", None)], V.SUBSCRIPTS, V.SIB_TERMS)]
     seen = set()
     for kind, W, maxlen, ext, qs, only, terms in fam:
         for ch, m in V.chains(kind, W, maxlen, ext, only):
@@ -443,7 +451,10 @@ def emit_tasks(run: Run):
                         continue
                     seen.add((kind, W, ch, term, q))
                     for mode in ("read", "write"):
-                        if mode == "write" and (q not in V.WRITABLE or term in TYPED):
+                        if mode == "write" and ((q not in V.WRITABLE and q != ("LVariable", None)) or term in TYPED
+                                                or term in V.SIB_TERMS):
+                            continue
+                        if term in V.SIB_TERMS and (m[0] == "Bit" or (q[0] == "LSignal" and not term.endswith("C"))):
                             continue
                         yield (q, kind, W, ch, term, mode)
 
